@@ -3,15 +3,32 @@
 (* Abstract state: which addresses are present and which node owns each.     *)
 (* Written from the statement: present <=> joined and not yet left; per-node  *)
 (* lists are exactly the present members of the node, without duplicates.     *)
+(*                                                                            *)
+(* Two layers:                                                                *)
+(*  - the sequential table (Join/Leave/Empty, Spec): one atomic action per    *)
+(*    call, the answers of the reads are functions of `present`;              *)
+(*  - the table used by several goroutines at once (CSpec): a call is         *)
+(*    Call(g, c) ; Lin(g) ; Ret(g) - it takes effect atomically at one        *)
+(*    internal step Lin somewhere between its call and its return and its     *)
+(*    answer is the sequential table's answer at that step. "Present exactly  *)
+(*    when joined and not yet left" for overlapping joins and leaves means:   *)
+(*    whatever the table answers, and whatever it shows after all calls       *)
+(*    returned, is what SOME order of the Lin steps gives (MembersTrace.tla   *)
+(*    searches that order for recorded histories; MembersPool.tla checks the  *)
+(*    two-table implementation of the repository against this layer).         *)
 EXTENDS Integers, FiniteSets, Sequences, TLC
 
-CONSTANTS Addr, Node
+CONSTANTS Addr, Node,
+          Procs       \* goroutines of the concurrent layer
 None == "none"
 
-VARIABLES present    \* Addr -> Node \cup {None}
-vars == <<present>>
+VARIABLES present,   \* Addr -> Node \cup {None}
+          pend       \* Procs -> the call in progress (concurrent layer)
+vars == <<present, pend>>
 
-Init == present = [a \in Addr |-> None]
+Idle == [st |-> "idle"]
+Init == /\ present = [a \in Addr |-> None]
+        /\ pend = [g \in Procs |-> Idle]
 
 Join(a, n)  == present' = [present EXCEPT ![a] = n]
 Leave(a)    == present' = [present EXCEPT ![a] = None]
@@ -27,15 +44,67 @@ MembersLen(n)  == Cardinality(MembersOf(n))
 Others(n, a)   == Cardinality(MembersOf(n) \ {a})
 FoundIn(n, a)  == a \in MembersOf(n)
 
-Next == \/ \E a \in Addr, n \in Node : Join(a, n)
-        \/ \E a \in Addr : Leave(a)
-        \/ Empty
+Next == /\ \/ \E a \in Addr, n \in Node : Join(a, n)
+           \/ \E a \in Addr : Leave(a)
+           \/ Empty
+        /\ UNCHANGED pend
 Spec == Init /\ [][Next]_vars
 
-TypeOK == present \in [Addr -> Node \cup {None}]
+-----------------------------------------------------------------------------
+(* the concurrent layer *)
+B2N(b) == IF b THEN 1 ELSE 0
+(* a call: operation, address, node ("none" where the operation has none) *)
+Calls == [op : {"Join"}, addr : Addr, node : Node]
+           \cup [op : {"Leave", "Exists", "Get"}, addr : Addr, node : {None}]
+           \cup [op : {"MembersLen"}, addr : {None}, node : Node]
+           \cup [op : {"Others"}, addr : Addr, node : Node]
+           \cup [op : {"Len"}, addr : {None}, node : {None}]
+Mutator(c) == c.op \in {"Join", "Leave"}
+(* an answer: b = added / removed / exists / found, n = node of the member found, *)
+(* l = a length, o = the number of other members                                   *)
+Rep(b, n, ln, o) == [b |-> b, n |-> n, l |-> ln, o |-> o]
+(* the sequential table's answer to call c in the current state *)
+Answer(c) ==
+  CASE c.op = "Join"       -> Rep(B2N(Added(c.addr)), None, 0, 0)
+    [] c.op = "Leave"      -> Rep(B2N(Removed(c.addr)), None, 0, 0)
+    [] c.op = "Exists"     -> Rep(B2N(Exists(c.addr)), None, 0, 0)
+    [] c.op = "Get"        -> Rep(B2N(Exists(c.addr)), present[c.addr], 0, 0)
+    [] c.op = "Len"        -> Rep(0, None, NLen, 0)
+    [] c.op = "MembersLen" -> Rep(0, None, MembersLen(c.node), 0)
+    [] c.op = "Others"     -> Rep(B2N(FoundIn(c.node, c.addr)), None, MembersLen(c.node), Others(c.node, c.addr))
+Effect(c) ==
+  CASE c.op = "Join"  -> Join(c.addr, c.node)
+    [] c.op = "Leave" -> Leave(c.addr)
+    [] OTHER          -> UNCHANGED present
+
+Call(g, c) == /\ pend[g] = Idle
+              /\ pend' = [pend EXCEPT ![g] = [st |-> "called", c |-> c]]
+              /\ UNCHANGED present
+Lin(g)     == /\ pend[g].st = "called"
+              /\ Effect(pend[g].c)
+              /\ pend' = [pend EXCEPT ![g] = [st |-> "done", c |-> pend[g].c, r |-> Answer(pend[g].c)]]
+Ret(g)     == /\ pend[g].st = "done"
+              /\ pend' = [pend EXCEPT ![g] = Idle]
+              /\ UNCHANGED present
+CNext == \E g \in Procs : \/ \E c \in Calls : Call(g, c)
+                          \/ Lin(g)
+                          \/ Ret(g)
+CSpec == Init /\ [][CNext]_vars
+
+-----------------------------------------------------------------------------
+TypeOK == /\ present \in [Addr -> Node \cup {None}]
+          /\ \A g \in Procs : \/ pend[g] = Idle
+                              \/ pend[g].st \in {"called", "done"} /\ pend[g].c \in Calls
 (* the per-node lists partition the present members *)
 Partition ==
-  LET S[k \in 0..Cardinality(Node)] == 0 IN
   /\ \A n1, n2 \in Node : n1 # n2 => MembersOf(n1) \cap MembersOf(n2) = {}
   /\ UNION {MembersOf(n) : n \in Node} = {a \in Addr : present[a] # None}
+(* an answer handed out is the answer of the state its call took effect in: a join *)
+(* that reports "added" found the address absent, a leave that reports "removed"   *)
+(* found it present; checked on the concurrent layer as an action property         *)
+AnswerAtLin == [][\A g \in Procs :
+                    (pend[g].st = "called" /\ pend'[g].st = "done") =>
+                       /\ pend'[g].r = Answer(pend[g].c)
+                       /\ (pend[g].c.op = "Join" => present'[pend[g].c.addr] = pend[g].c.node)
+                       /\ (pend[g].c.op = "Leave" => present'[pend[g].c.addr] = None)]_vars
 =============================================================================
